@@ -124,6 +124,7 @@ type FuncSpec struct {
 	Pure     bool
 	NoPanic  bool
 	Atomic   []Clause
+	Callbacks  map[string]Clause // 'callback name: expr over r0, r1, ...' assumed of a callback stored in a field
 	OpaquePure bool // 'opaque-calls pure': function values that are not parameters may be called; assumed not to touch the state in question
 	LockInvs []Clause // 'lockinv': invariant of the guarded state, assumed after every acquire, proved at every release
 	Pures    []Clause // 'cs-pure': what 'guarded state unchanged' means for the non-final critical sections
@@ -502,7 +503,7 @@ var clauseKW = map[string]bool{
 	"spec": true, "func": true, "lemma": true, "guarded": true,
 	"requires": true, "ensures": true, "modifies": true, "ghost": true, "loop": true,
 	"invariant": true, "decreases": true, "unfold": true, "inline": true, "trusted": true,
-	"pure": true, "atomic": true, "param": true, "induction": true, "havoc": true, "nopanic": true, "unroll": true, "known-finding": true, "apply": true, "assert": true, "witness": true, "cs-pure": true, "inline-call": true, "lockinv": true, "opaque-calls": true, "signal-channels": true,
+	"pure": true, "atomic": true, "param": true, "induction": true, "havoc": true, "nopanic": true, "unroll": true, "known-finding": true, "apply": true, "assert": true, "witness": true, "cs-pure": true, "inline-call": true, "lockinv": true, "opaque-calls": true, "signal-channels": true, "callback": true,
 }
 
 type rawClause struct {
@@ -620,6 +621,22 @@ func ParseContractFile(path string, src []byte, ps *PkgSpec) error {
 			a := strings.SplitN(parts[0], ".", 2)
 			b := strings.SplitN(parts[2], ".", 2)
 			ps.Guards = append(ps.Guards, &GuardSpec{Type: a[0], Fields: []string{a[1]}, Mutex: b[1]})
+		case "callback":
+			if cur == nil {
+				return fmt.Errorf("%s:%d: callback outside func", path, rc.line)
+			}
+			i := strings.Index(rc.text, ":")
+			if i < 0 {
+				return fmt.Errorf("%s:%d: callback name: condition", path, rc.line)
+			}
+			c, err := mkClause(rawClause{kw: rc.kw, text: strings.TrimSpace(rc.text[i+1:]), line: rc.line})
+			if err != nil {
+				return err
+			}
+			if cur.Callbacks == nil {
+				cur.Callbacks = map[string]Clause{}
+			}
+			cur.Callbacks[strings.TrimSpace(rc.text[:i])] = c
 		case "signal-channels":
 			if cur == nil {
 				return fmt.Errorf("%s:%d: signal-channels outside func", path, rc.line)
